@@ -121,6 +121,15 @@ Next == Compute \/ Accumulate
 RowsSumToOne == cur.has => \A k \in Keys : FoldFunction(FAdd, 0, cur.rows[k]) = 1
 BadTargets == {<<k, t>> \in Keys \X All : acc[k][t] # W1(t) % P}
 Stationary == (todo = {}) => BadTargets = {}
+\* every move is defined on every forest a run can hold (no stuck state = no exception): the data-point scan and
+\* prune-regraft always have a candidate; the subtree move needs a clone to start from unless it falls back to the
+\* whole-tree update on an all-outlier tree (deviation AllOutlierWhole = FALSE: stuck there - finding F7)
+MovesDefined == \A s \in All :
+   /\ \A d \in Data : DPCands(s, d) # {}
+   /\ \A v \in s.f : (RestF(s.f, v) = {} \/ PRGCands(s, v) # {})
+   /\ (NonOut(s) = {} => AllOutlierWhole)
+   /\ \A d \in NonOut(s) : SubCands(s, d) # {}
+DefinedInv == (todo = All /\ ~cur.has) => MovesDefined
 Closed == CASE Move = "dp" -> DPClosed [] Move = "prg" -> PRGClosed [] Move = "sub" -> SubClosed
 ClosedInv == (todo = All /\ ~cur.has) => Closed
 =============================================================================
